@@ -136,7 +136,7 @@ def explore_job(job):
             out["witness"] = _ser_params(eng, m)
             if m is not None and rec["status"] == "ok":
                 try:
-                    ev = eng.eval_float(rec["result"], m)
+                    ev = eng.eval_float(sc.observable(rec["result"]), m)
                     out["outputs"] = hz.flatten(ev)
                 except Exception as e:
                     out["outputs"] = None
@@ -190,7 +190,7 @@ def replay_once(req):
         res["exc_type"] = type(e).__name__
         res["expected_exception"] = type(e).__name__ in sc.expected_exceptions
         return res
-    flat = hz.flatten(outputs)
+    flat = hz.flatten(sc.observable(outputs))
     res["outputs"] = [None if x is None else (x if isinstance(x, (bool, int)) else float(x).hex()) for x in flat]
     res["nonfinite"] = not _finite(flat)
     ob = hz.Obligations(None)
